@@ -605,9 +605,9 @@ func (f *Frame) assignedIn(nodes ...ast.Node) []types.Object {
 						if sig, ok := s.Obj().Type().(*types.Signature); ok && sig.Recv() != nil {
 							if _, isPtr := sig.Recv().Type().(*types.Pointer); isPtr {
 								add(sel.X)
-							} else if _, isIfc := sig.Recv().Type().Underlying().(*types.Interface); isIfc {
-								add(sel.X)
 							}
+							// interface receivers are opaque handles: their state is not part of the
+							// symbolic value (consistent with havocReachable)
 						}
 					}
 				}
@@ -699,7 +699,7 @@ func (f *Frame) execLoop(st *State, label string, n ast.Node, modified []types.O
 			head.env[o] = f.havoc(head, o.Name(), o.Type())
 		}
 	}
-	f.havocGhostInLoop(head)
+	f.havocGhostInLoop(head, n)
 	assumeInv(head)
 	bc := &breakCtx{label: label, isLoop: true}
 	f.brk = append(f.brk, bc)
@@ -724,7 +724,32 @@ func (f *Frame) execLoop(st *State, label string, n ast.Node, modified []types.O
 	return f.mergeStates(outs)
 }
 
-func (f *Frame) havocGhostInLoop(st *State) {}
+// havocGhostInLoop: a loop whose body calls math/big methods may change the big-int heap.
+func (f *Frame) havocGhostInLoop(st *State, loop ast.Node) {
+	uses := false
+	ast.Inspect(loop, func(n ast.Node) bool {
+		if call, ok := n.(*ast.CallExpr); ok {
+			if sel, ok := call.Fun.(*ast.SelectorExpr); ok {
+				if tv, ok := f.info.Types[sel.X]; ok && tv.Type != nil && isBigInt(tv.Type) {
+					uses = true
+				}
+			}
+			for _, a := range call.Args {
+				if tv, ok := f.info.Types[a]; ok && tv.Type != nil && isBigInt(tv.Type) {
+					uses = true
+				}
+			}
+		}
+		return !uses
+	})
+	if !uses {
+		return
+	}
+	old := st.gh[bigNextKey].T
+	st.gh[bigHeapKey] = Val{T: f.c.fresh("bigheap", "(Array Int Int)")}
+	st.gh[bigNextKey] = Val{T: f.c.fresh("bignext", "Int")}
+	st.assume(fmt.Sprintf("(>= %s %s)", st.gh[bigNextKey].T, old))
+}
 
 func (f *Frame) execFor(st *State, x *ast.ForStmt, label string) *State {
 	if x.Init != nil {
